@@ -4,6 +4,7 @@ import (
 	"fmt"
 	"net"
 	"sync"
+	"sync/atomic"
 	"time"
 
 	mqtt "github.com/mochi-mqtt/server/v2"
@@ -60,6 +61,41 @@ func c37DeadlineCase(c *vk.Ctx, ver byte, K uint16, attempt int) bool {
 	return true
 }
 
+// c37OutboundCase: what the broker sends to a client must not move that client's deadline - only packets received
+// from it do. A subscriber with keepalive K subscribes and then stays silent while another client publishes to it.
+func c37OutboundCase(c *vk.Ctx, ver byte, K uint16, qos byte) {
+	b := eng.NewBroker(eng.Options{})
+	defer b.Shutdown()
+	sub, rx := dConnect(b, ver, "ksub", true, nil, func(p *rc.Packet) { p.KeepAlive = K })
+	if ca := hasType(rx, rc.CONNACK); ca == nil || ca.Reason != 0 {
+		c.Inconclusive("C37 outbound: CONNECT refused")
+		return
+	}
+	sub.send(subscribePkt(1, "ko/#", qos))
+	pub, _ := dConnect(b, 5, "kpub", true, nil, nil)
+	before := sub.MC.Deadlines()
+	got := 0
+	for i := 0; i < 6; i++ {
+		pub.send(publishPkt("ko/t", qos, uint16(20+i), fmt.Sprintf("o%d", i), false))
+		for _, rp := range sub.wait() {
+			if rp.P.Type == rc.PUBLISH {
+				got++
+			}
+		}
+	}
+	after := sub.MC.Deadlines()
+	c.Count("outbound_packets_to_silent_client", int64(got))
+	if got == 0 {
+		c.Inconclusive("C37 outbound: the silent subscriber received nothing")
+		return
+	}
+	if len(after) != len(before) {
+		last := after[len(after)-1]
+		c.Violate("C37/deadline-moved-by-outbound-traffic", map[string]string{"k": fmt.Sprint(K)}, fmt.Sprintf("keepalive %d s (MQTT %d): while the client sent nothing, %d packets written to it were accompanied by %d new deadline requests (last asks for %.3f s ahead): a client that only receives is never timed out",
+			K, ver, got, len(after)-len(before), last.T.Sub(last.At).Seconds()), map[string]any{"keepalive": K, "version": ver, "qos": qos})
+	}
+}
+
 // ---- behavioural part: real time over loopback TCP
 
 type c37Timing struct {
@@ -87,7 +123,10 @@ func newTCPBroker() (*mqtt.Server, string, error) {
 }
 
 // returns verdict: "", "inconclusive:<why>" or violation rule + detail
+var c37Seq atomic.Int64
+
 func c37Behaviour(addr string, K int, kind string, rounds int) (tm c37Timing, rule, detail string) {
+	uniq := c37Seq.Add(1)
 	early := float64(K) / 4
 	if early < 0.25 {
 		early = 0.25
@@ -124,11 +163,38 @@ func c37Behaviour(addr string, K int, kind string, rounds int) (tm c37Timing, ru
 		_, err := conn.Write(rc.Encode(p, rc.FormAuto))
 		return time.Now(), err
 	}
-	last, err := send(&rc.Packet{Type: rc.CONNECT, ProtoLevel: 4, ProtoName: "MQTT", ClientID: fmt.Sprintf("ka%d%s", K, kind), ConnectFlags: 2, KeepAlive: uint16(K)})
+	last, err := send(&rc.Packet{Type: rc.CONNECT, ProtoLevel: 4, ProtoName: "MQTT", ClientID: fmt.Sprintf("ka%d%s%d", K, kind, uniq), ConnectFlags: 2, KeepAlive: uint16(K)})
 	if err != nil {
 		return tm, "inconclusive", "write: " + err.Error()
 	}
 	gap := time.Duration(tm.Gap * float64(time.Second))
+	if kind == "silent-receiver" {
+		// subscribe, then say nothing more while a second connection keeps publishing to us: being written to is not activity
+		rounds = 0
+		if last, err = send(subscribePkt(1, fmt.Sprintf("ka/rx%d", uniq), 0)); err != nil {
+			return tm, "inconclusive", "write: " + err.Error()
+		}
+		stop := make(chan struct{})
+		defer close(stop)
+		go func() {
+			pc, err := net.Dial("tcp", addr)
+			if err != nil {
+				return
+			}
+			defer pc.Close()
+			_, _ = pc.Write(rc.Encode(&rc.Packet{Type: rc.CONNECT, Version: 4, ProtoLevel: 4, ProtoName: "MQTT", ClientID: fmt.Sprintf("kapub%d", uniq), ConnectFlags: 2}, rc.FormAuto))
+			for {
+				select {
+				case <-stop:
+					return
+				case <-time.After(time.Duration(float64(K) * 0.3 * float64(time.Second))):
+					pp := publishPkt(fmt.Sprintf("ka/rx%d", uniq), 0, 0, "x", false)
+					pp.Version = 4
+					_, _ = pc.Write(rc.Encode(pp, rc.FormAuto))
+				}
+			}
+		}()
+	}
 	for i := 0; i < rounds; i++ {
 		due := last.Add(gap)
 		select {
@@ -186,8 +252,8 @@ func c37Behaviour(addr string, K int, kind string, rounds int) (tm c37Timing, ru
 }
 
 func checkC37(c *vk.Ctx) {
-	c.Rule = "(state) for keepalive K in {0,1,2,3,5,7,10,60,65535} x MQTT 3.1.1/5 on an in-memory connection that records every SetDeadline request with the clock at the call: each request made after CONNECT must ask for 1.5 x K s (+0.05/-0.2 s), none with K=0. " +
-		"(behaviour, real time, loopback TCP listener, Serve() running) K in {1,2,3}: PINGREQ/PUBLISH packets sent every 1.5K - max(K/4,0.25) s for 3 rounds must not be answered by a close; after the last packet the connection must be closed between 1.5K - max(K/4,0.25) s and 1.5K + K/4 + 0.3 s; K=0: still open after 3 s of silence. " +
+	c.Rule = "(state) for keepalive K in {0,1,2,3,5,7,10,60,65535} x MQTT 3.1.1/5 on an in-memory connection that records every SetDeadline request with the clock at the call: each request made after CONNECT must ask for 1.5 x K s (+0.05/-0.2 s), none with K=0; while a subscriber (K in {1,10,65535}, QoS 0/1) sends nothing and 6 messages are delivered to it, no new deadline request may appear (only packets from the client count as activity). " +
+		"(behaviour, real time, loopback TCP listener, Serve() running) K in {1,2,3}: PINGREQ/PUBLISH packets sent every 1.5K - max(K/4,0.25) s for 3 rounds must not be answered by a close; after the last packet the connection must be closed between 1.5K - max(K/4,0.25) s and 1.5K + K/4 + 0.3 s; K=0: still open after 3 s of silence; silent-receiver: a subscriber that sends nothing after SUBSCRIBE while another connection publishes to it every 0.3K s must be closed in the same window. " +
 		"A harness send more than 80 ms late makes the case inconclusive (retried once). nontrivial = cases in which a close time or a deadline request was observed"
 	c.Assumptions = []string{"wall-clock verdicts only with margins >= K/4; jitter guard turns late harness actions into inconclusive cases", "the read deadline set on the connection is what ends an idle connection (net.Conn semantics trusted)"}
 	// state part
@@ -199,7 +265,16 @@ func checkC37(c *vk.Ctx) {
 			c.Eval(vk.Hash("c37state", K, ver), true)
 		}
 	}
+	for _, K := range []uint16{1, 10, 65535} {
+		for _, ver := range []byte{4, 5} {
+			for _, q := range []byte{0, 1} {
+				c37OutboundCase(c, ver, K, q)
+				c.Eval(vk.Hash("c37outbound", K, ver, q), true)
+			}
+		}
+	}
 	c.MinEvents["deadline_requests"] = 50
+	c.MinEvents["outbound_packets_to_silent_client"] = 30
 	// behavioural part
 	s, addr, err := newTCPBroker()
 	if err != nil {
@@ -211,10 +286,10 @@ func checkC37(c *vk.Ctx) {
 		K    int
 		kind string
 	}
-	cases := []bc{{1, "ping"}, {1, "mixed"}, {2, "ping"}, {2, "publish"}, {0, "ping"}, {3, "mixed"}}
+	cases := []bc{{1, "ping"}, {1, "mixed"}, {2, "ping"}, {2, "publish"}, {0, "ping"}, {3, "mixed"}, {1, "silent-receiver"}, {2, "silent-receiver"}}
 	if !c.Quick() {
 		for rep := 0; rep < 4; rep++ {
-			cases = append(cases, bc{1, "ping"}, bc{1, "publish"}, bc{2, "mixed"}, bc{3, "ping"}, bc{3, "publish"}, bc{0, "mixed"})
+			cases = append(cases, bc{1, "ping"}, bc{1, "publish"}, bc{2, "mixed"}, bc{3, "ping"}, bc{3, "publish"}, bc{0, "mixed"}, bc{1 + rep%3, "silent-receiver"})
 		}
 	}
 	var wg sync.WaitGroup
